@@ -165,6 +165,47 @@ Example C12_concurrent_close_unguarded_refuted :
   (let s := Closers.crun_window false false false 2 in Closers.c_panic s = true /\ Closers.c_unregs s = 2).
 Proof. vm_compute. repeat split; reflexivity. Qed.
 
+(* (7) Sends between received packets.  A history interleaves what the reader goroutine does (packets of any channels,
+   closes) with what the channels' users do in between: whole messages (QueuePackage ... SendPackage /
+   SendRemainingPackets, each ending with the channel's reset()) and Channel.Reset, on ANY channel at ANY point - in
+   particular on a channel between two packets of a package addressed to it.  The routing results and the routing map
+   are those of the history with the send / reset events erased: no send can drop, reorder or damage what the server
+   sent. *)
+Theorem C12_routing_ignores_sends : forall need nenv ps hs m tm,
+  rx_outs (fst (hist_run need nenv ps (m, tm) hs)) = fst (route_ops need nenv m (rx_ops hs)) /\
+  fst (snd (hist_run need nenv ps (m, tm) hs)) = snd (route_ops need nenv m (rx_ops hs)).
+Proof. exact routing_ignores_sends. Qed.
+
+(* hence, with C12_routing: whatever is sent in between, a channel sees, packet by packet, what the receive path of one
+   channel alone delivers for the packets addressed to it, in the order the server sent them *)
+Theorem C12_routing_with_sends : forall need nenv ps hs m tm id st,
+  cm_find id m = Some st ->
+  existsb (closes id) (rx_ops hs) = false ->
+  events_of id (rx_outs (fst (hist_run need nenv ps (m, tm) hs))) = fst (rx_run need nenv st (pkts_for id (rx_ops hs))) /\
+  cm_find id (fst (snd (hist_run need nenv ps (m, tm) hs))) = Some (snd (rx_run need nenv st (pkts_for id (rx_ops hs)))).
+Proof. exact routing_with_sends. Qed.
+
+(* and the other way round: what the sends write (result codes, transport writes with the channel's id and packet
+   numbers as the send model of section 3 / C01 numbers them) and the send states afterwards do not depend on the packets
+   received in between, nor on the routing map *)
+Theorem C12_sends_ignore_routing : forall need nenv ps hs m m' tm,
+  tx_outs (fst (hist_run need nenv ps (m, tm) hs)) = tx_outs (fst (hist_run need nenv ps (m', tm) (tx_hops hs))) /\
+  snd (snd (hist_run need nenv ps (m, tm) hs)) = snd (snd (hist_run need nenv ps (m', tm) (tx_hops hs))).
+Proof. exact sends_ignore_routing. Qed.
+
+(* non-vacuity: channel 1 receives DONE(count = 1001) cut after 4 bytes; between the two packets its user sends a message
+   (packet number 1 after the SETUP packet's 0): the write goes out and the DONE is delivered whole, followed by the
+   final DONE the receive path adds at the end of a message *)
+Example C12_send_between_example :
+  let a1 := {| p_hdr := TL [TI 4; TI 0; TI 12; TI 1; TI 0; TI 0]; p_len := 12; p_eom := false; p_body := [253;16;0;0] |} in
+  let a2 := {| p_hdr := TL [TI 4; TI 1; TI 13; TI 1; TI 0; TI 0]; p_len := 13; p_eom := true; p_body := [0;233;3;0;0] |} in
+  let hs := [HRx (OPkt a1); HSend 1 15 [[[33;1;2;3]]]; HRx (OPkt a2)] in
+  map hout_tree (fst (hist_run 0 0 512 ([(1, rx_init)], [(1, {| tq := empty_pq; tnr := 1 |})]) hs)) =
+  [TL [TL []; TL []];
+   TL [TI 0; TL [TB [15; 1; 0; 12; 0; 1; 1; 0; 33; 1; 2; 3]]];
+   TL [TL [TL [TI 1; TL [TL [TI 1; TI 253; TL [TI 16; TI 0; TI 1001]]; TL [TI 1; TI 253; TL [TI 0; TI 0; TI 0]]]]]; TL []]].
+Proof. vm_compute. reflexivity. Qed.
+
 (* ---- non-vacuity *)
 
 (* two channels (ids 1 and 256), packets interleaved, one packet for an unknown id, channel 256 closed in between:
@@ -205,3 +246,6 @@ Print Assumptions C12_tx_numbering.
 Print Assumptions C12_channel_numbering.
 Print Assumptions C12_setup_ack.
 Print Assumptions C12_concurrent_close.
+Print Assumptions C12_routing_ignores_sends.
+Print Assumptions C12_routing_with_sends.
+Print Assumptions C12_sends_ignore_routing.
